@@ -1,6 +1,7 @@
 #!/bin/bash
 # seedtest.sh <PID> <k> [check-ids...] : confirm a seeded change and run the checks against it.
 # Applies the patch to /repo, verifies build + suite + demo, runs checks, and always undoes the patch.
+export VERIF_NO_EVIDENCE=1   # evidence files describe runs on the unchanged tree only
 PID=$1; K=$2; shift 2
 CHECKS=${@:-$PID}
 OUT=${SEEDOUT:-/tmp/seed/out}/$PID
